@@ -124,7 +124,7 @@ def diff_scenarios(draw):
             "seg": draw(st.sampled_from([None, None, [1], [7, 100], [3]]))}
 
 
-def _one(sc, sync):
+def _one(sc, sync, runtime="asyncio"):
     extra = {"max_connections": sc["max_connections"], "retries": sc["retries"]}
     if sc["max_keepalive"] is not None:
         extra["max_keepalive_connections"] = sc["max_keepalive"]
@@ -161,7 +161,14 @@ def _one(sc, sync):
             await pool.aclose()
             snap()
 
-        run_async(go())
+        if runtime == "trio":
+            from ..drivers import run_trio_inline
+
+            _, hang = run_trio_inline(go, world.clock)
+            if hang:
+                outs.append({"exc": {"type": "HANG", "name": "HANG", "documented": False, "msg": "blocked for ever under trio", "inner": None, "base": False}})
+        else:
+            run_async(go())
     trace = []
     for op in world.trace:
         trace.append((op["kind"], op["pipe"], op.get("timeout"), op.get("data"), op.get("max_bytes"), op.get("n"), op.get("exc"), op.get("host"),
@@ -171,33 +178,45 @@ def _one(sc, sync):
 
 def execute_diff(sc) -> Outcome:
     so, ss, st_ = _one(sc, True)
-    ao, as_, at = _one(sc, False)
+    vio = []
+    comparisons = 0
+    for label, runtime in (("async", "asyncio"), ("async-on-trio", "trio")):
+        ao, as_, at = _one(sc, False, runtime)
+        v, n = _compare(sc, label, so, ss, st_, ao, as_, at)
+        vio += v
+        comparisons += n
+    fired = any(o["exc"] for o in so)
+    tags = [sc["kind"]] + (["fault"] if sc["faults"] else []) + (["multi-request"] if len(sc["requests"]) > 1 else [])
+    nontrivial = len(sc["requests"]) >= 2 or bool(sc["faults"]) or sc["kind"].split("-")[0] in ("forward", "tunnel", "socks")
+    return Outcome(vio[:4], tags, nontrivial, info={"ops": len(st_), "outcomes": [(o.get("status") or o["exc"]["name"]) for o in so]},
+                   metrics={"diff_pairs": 2, "diff_comparisons": comparisons})
+
+
+def _compare(sc, label, so, ss, st_, ao, as_, at):
     vio = []
     comparisons = 0
     what = f"{sc['kind']} requests={[(r['method'], r['api'], r['read']) for r in sc['requests']]} faults={sc['faults']} seg={sc['seg']}"
+    if len(so) != len(ao):
+        vio.append(V(P, "diff-exception", f"{what}: sync performed {len(so)} requests, {label} {len(ao)}", conn=sc["kind"], variant=label))
     for i, (a, b) in enumerate(zip(so, ao)):
         comparisons += 1
         ea = a["exc"] and a["exc"]["name"]
         eb = b["exc"] and b["exc"]["name"]
         if ea != eb:
-            vio.append(V(P, "diff-exception", f"{what}: request {i}: sync raised {a['exc'] and a['exc']['type']}, async raised {b['exc'] and b['exc']['type']}", conn=sc["kind"]))
+            vio.append(V(P, "diff-exception", f"{what}: request {i}: sync raised {a['exc'] and a['exc']['type']}, {label} raised {b['exc'] and b['exc']['type']}", conn=sc["kind"], variant=label))
         elif ea is None and (a["status"], a["headers"], a["body"], a.get("http_version"), a.get("reason")) != (b["status"], b["headers"], b["body"], b.get("http_version"), b.get("reason")):
-            vio.append(V(P, "diff-response", f"{what}: request {i}: sync and async responses differ: {a['status']}/{len(a['body'])}B vs {b['status']}/{len(b['body'])}B", conn=sc["kind"]))
+            vio.append(V(P, "diff-response", f"{what}: request {i}: sync and {label} responses differ: {a['status']}/{len(a['body'])}B vs {b['status']}/{len(b['body'])}B", conn=sc["kind"], variant=label))
     for i, (a, b) in enumerate(zip(ss, as_)):
         comparisons += 1
         if a != b:
-            vio.append(V(P, "diff-state", f"{what}: after step {i}: sync pool state {a!r}, async pool state {b!r}", conn=sc["kind"]))
+            vio.append(V(P, "diff-state", f"{what}: after step {i}: sync pool state {a!r}, {label} pool state {b!r}", conn=sc["kind"], variant=label))
             break
     comparisons += max(len(st_), len(at))
     if st_ != at:
         j = next((k for k in range(min(len(st_), len(at))) if st_[k] != at[k]), min(len(st_), len(at)))
-        vio.append(V(P, "diff-wire", f"{what}: network op #{j} differs: sync {st_[j] if j < len(st_) else None!r} vs async {at[j] if j < len(at) else None!r} "
-                     f"({len(st_)} vs {len(at)} ops)", conn=sc["kind"]))
-    fired = any(o["exc"] for o in so)
-    tags = [sc["kind"]] + (["fault"] if sc["faults"] else []) + (["multi-request"] if len(sc["requests"]) > 1 else [])
-    nontrivial = len(sc["requests"]) >= 2 or bool(sc["faults"]) or sc["kind"].split("-")[0] in ("forward", "tunnel", "socks")
-    return Outcome(vio[:4], tags, nontrivial, info={"ops": len(st_), "outcomes": [(o.get("status") or o["exc"]["name"]) for o in so]},
-                   metrics={"diff_pairs": 1, "diff_comparisons": comparisons})
+        vio.append(V(P, "diff-wire", f"{what}: network op #{j} differs: sync {st_[j] if j < len(st_) else None!r} vs {label} {at[j] if j < len(at) else None!r} "
+                     f"({len(st_)} vs {len(at)} ops)", conn=sc["kind"], variant=label))
+    return vio, comparisons
 
 
 LAYERS.append(Layer("differential", strategy=diff_scenarios, execute=execute_diff, budget={"quick": 2400, "thorough": 80000}))
